@@ -18,6 +18,11 @@ def check(run):
         size = max(1, size)
         plans.append([dict(op=run.rng.choice(["Chunk", "Windowed", "Pairs"]), n=n, size=size,
                            input=[run.rng.randint(0, 9) for _ in range(n)])])
+    # sizes at the top of the int range (arithmetic on n + size must not overflow)
+    for n in (0, 1, 2, 3, 4, 5, 17):
+        for h in (0, 1, 2):
+            for op in ("Chunk", "Windowed"):
+                plans.append([dict(op=op, n=n, size=1 << 30, huge=h)])
     segs = execute(run, plans)
     if len(segs) != len(plans):
         raise Inconclusive("driver returned %d events for %d plans" % (len(segs), len(plans)))
